@@ -130,7 +130,8 @@ def make_search(mido, type_, acc):
     if not SX_CLASS:
         SX_CLASS.append(type(Message('sysex').data))
     own, foreign = names_for(type_)
-    set_names = own + ['type', foreign, 'nosuch', 'is_meta']
+    set_names = own + ['type', foreign, 'nosuch', 'is_meta', '_foo', '__foo',
+                       '_lock', 'Note', 'skip_checks']
 
     def build(hist):
         m = Message(type_)
@@ -184,8 +185,10 @@ def make_search(mido, type_, acc):
         if type_ == 'sysex':
             for v in DATA_VALUES:
                 out.append(('iadd', v))
-        for name in own + [foreign, 'nosuch']:
+        for name in own + [foreign, 'nosuch', '_foo', 'skip_checks']:
             vals = values_for(name) if name in own else (0,)
+            if name == 'skip_checks':
+                continue        # a keyword of the constructor, not an attribute
             for v in vals:
                 out.append(('copy', ((name, v),)))
                 out.append(('ctor', ((name, v),)))
@@ -209,6 +212,13 @@ def make_search(mido, type_, acc):
         if type_ == 'sysex':
             for txt in ('data=(1,2)', 'data=(128)', 'data=(-1)', 'data=(0,127)'):
                 out.append(('from_str', f'sysex {txt}'))
+        # text that tries to switch the checks off
+        for name in own:
+            if name in ('time', 'data'):
+                continue
+            lo, hi = ref.RANGES[name]
+            out.append(('from_str', f'{type_} {name}={hi + 1} skip_checks=1'))
+            out.append(('from_str', f'{type_} skip_checks=1 {name}={lo - 1}'))
         return out
 
     def apply(s, op):
@@ -325,6 +335,13 @@ def make_search(mido, type_, acc):
                         f'{op!r} raised but the message changed')
         elif kind == 'from_str':
             text = op[1]
+            if 'skip_checks' in text:
+                # not a parameter of the text format: must be rejected, and
+                # must never switch validation off
+                if status != 'raised':
+                    bad('accepted-invalid/skip_checks-in-text',
+                        f'from_str({text!r}) = {other!r}')
+                return
             word = text.split()[1]
             name, _, val = word.partition('=')
             if name == 'data':
